@@ -21,7 +21,9 @@
 //	captured-local       a variable of an enclosing function that runs only at parse time: one per invocation
 //	captured-local-deref memory reached through such a variable
 //	receiver, param      memory reached through the method receiver / a parameter
-//	local-deref          memory reached through a local variable
+//	local-fresh          memory allocated in the same function body (make, new, &T{}, slice/map literal) and
+//	                     reached in one hop through the local variable that holds nothing else
+//	local-deref          memory reached through any other local variable
 //	call-result          memory reached through the result of a call or type assertion
 //
 // Writes to a plain local variable (and to fields of a local struct value) are not listed.
@@ -159,6 +161,7 @@ type concWrite struct{ fn, lhs, kind, typ string }
 type concAnalysis struct {
 	l         *concLoader
 	nodes     []*fnode
+	inits     []*fnode // one per package: what the package level initialisers call
 	byObj     map[*types.Func]*fnode
 	byLit     map[*ast.FuncLit]*fnode
 	addrTaken map[*types.Func]bool
@@ -218,6 +221,7 @@ func (a *concAnalysis) collect(p *concPkg) {
 	for _, c := range holder.children {
 		c.parent = nil
 	}
+	a.inits = append(a.inits, holder)
 }
 
 func unparen(e ast.Expr) ast.Expr {
@@ -426,6 +430,7 @@ type rootInfo struct {
 	v     *types.Var // nil when the root is not a variable
 	pkg   bool       // root is a package level variable (possibly pkg.Name)
 	deref bool       // the path from the root passes through a pointer, slice or map
+	hops  int        // how many times
 	expr  ast.Expr   // the root expression when it is not an identifier
 }
 
@@ -441,7 +446,7 @@ func (a *concAnalysis) rootOf(info *types.Info, e ast.Expr) rootInfo {
 		return a.rootOf(info, x.X)
 	case *ast.StarExpr:
 		r := a.rootOf(info, x.X)
-		r.deref = true
+		r.deref, r.hops = true, r.hops+1
 		return r
 	case *ast.SelectorExpr:
 		if id, ok := x.X.(*ast.Ident); ok {
@@ -454,10 +459,10 @@ func (a *concAnalysis) rootOf(info *types.Info, e ast.Expr) rootInfo {
 		}
 		r := a.rootOf(info, x.X)
 		if sel, ok := info.Selections[x]; ok && sel.Indirect() {
-			r.deref = true
+			r.deref, r.hops = true, r.hops+1
 		} else if t := info.TypeOf(x.X); t != nil {
 			if _, ok := t.Underlying().(*types.Pointer); ok {
-				r.deref = true
+				r.deref, r.hops = true, r.hops+1
 			}
 		}
 		return r
@@ -467,7 +472,7 @@ func (a *concAnalysis) rootOf(info *types.Info, e ast.Expr) rootInfo {
 			switch t.Underlying().(type) {
 			case *types.Array:
 			default:
-				r.deref = true
+				r.deref, r.hops = true, r.hops+1
 			}
 		}
 		return r
@@ -477,12 +482,12 @@ func (a *concAnalysis) rootOf(info *types.Info, e ast.Expr) rootInfo {
 			switch t.Underlying().(type) {
 			case *types.Array:
 			default:
-				r.deref = true
+				r.deref, r.hops = true, r.hops+1
 			}
 		}
 		return r
 	default:
-		return rootInfo{expr: e, deref: true}
+		return rootInfo{expr: e, deref: true, hops: 1}
 	}
 }
 
@@ -492,7 +497,7 @@ func (a *concAnalysis) classify(n *fnode, lhs ast.Expr, viaBuiltin string) (conc
 	text := norm(lhs)
 	if viaBuiltin != "" {
 		text = viaBuiltin + "(" + text + ", ...)"
-		r.deref = true
+		r.deref, r.hops = true, r.hops+1
 	}
 	w := concWrite{fn: n.name, lhs: text}
 	if r.v == nil {
@@ -529,7 +534,7 @@ func (a *concAnalysis) classify(n *fnode, lhs ast.Expr, viaBuiltin string) (conc
 		} else {
 			w.kind = "captured-shared"
 		}
-		w.typ = w.typ + " declared in " + d.name
+		w.lhs = w.lhs + " [declared in " + d.name + "]"
 		return w, true
 	}
 	if !r.deref {
@@ -543,10 +548,104 @@ func (a *concAnalysis) classify(n *fnode, lhs ast.Expr, viaBuiltin string) (conc
 		w.kind = "receiver"
 	case a.isParamOrRecv(n, r.v):
 		w.kind = "param"
+	case r.hops == 1 && a.freshLocal(n, r.v):
+		w.kind = "local-fresh"
 	default:
 		w.kind = "local-deref"
 	}
 	return w, true
+}
+
+// freshLocal: every value the local variable v of n ever receives is memory allocated right there (make, new,
+// &T{...}, a slice or map literal, or append to itself), so one hop through v stays inside this invocation's own
+// allocation.
+func (a *concAnalysis) freshLocal(n *fnode, v *types.Var) bool {
+	info := n.pkg.info
+	var isFresh func(e ast.Expr) bool
+	isFresh = func(e ast.Expr) bool {
+		switch x := unparen(e).(type) {
+		case *ast.CompositeLit:
+			switch info.TypeOf(x).Underlying().(type) {
+			case *types.Slice, *types.Map:
+				return true
+			}
+			return false
+		case *ast.UnaryExpr:
+			if x.Op == token.AND {
+				_, ok := unparen(x.X).(*ast.CompositeLit)
+				return ok
+			}
+		case *ast.CallExpr:
+			if tv, ok := info.Types[unparen(x.Fun)]; ok && tv.IsType() && len(x.Args) == 1 {
+				return isFresh(x.Args[0])
+			}
+			if id, ok := unparen(x.Fun).(*ast.Ident); ok {
+				if b, ok := info.Uses[id].(*types.Builtin); ok {
+					switch b.Name() {
+					case "make", "new":
+						return true
+					case "append":
+						if aid, ok := unparen(x.Args[0]).(*ast.Ident); ok && info.ObjectOf(aid) == v {
+							return true
+						}
+					}
+				}
+			}
+		}
+		return false
+	}
+	defs, ok := 0, true
+	def := func(lhs ast.Expr, rhs ast.Expr) {
+		id, isID := unparen(lhs).(*ast.Ident)
+		if !isID || info.ObjectOf(id) != v {
+			return
+		}
+		defs++
+		if rhs == nil || !isFresh(rhs) {
+			ok = false
+		}
+	}
+	ast.Inspect(n.body, func(x ast.Node) bool {
+		switch s := x.(type) {
+		case *ast.AssignStmt:
+			for i, l := range s.Lhs {
+				if len(s.Lhs) == len(s.Rhs) {
+					def(l, s.Rhs[i])
+				} else {
+					def(l, nil)
+				}
+			}
+		case *ast.ValueSpec:
+			for i, nm := range s.Names {
+				switch {
+				case len(s.Values) == 0:
+					if info.ObjectOf(nm) == v {
+						defs++ // the zero value: nothing reachable through it
+					}
+				case len(s.Values) == len(s.Names):
+					def(nm, s.Values[i])
+				default:
+					def(nm, nil)
+				}
+			}
+		case *ast.RangeStmt:
+			if s.Key != nil {
+				def(s.Key, nil)
+			}
+			if s.Value != nil {
+				def(s.Value, nil)
+			}
+		case *ast.UnaryExpr:
+			// &v handed out: somebody else may store into it
+			if s.Op == token.AND {
+				if id, isID := unparen(s.X).(*ast.Ident); isID && info.ObjectOf(id) == v {
+					ok = false
+				}
+			}
+		}
+		return true
+	})
+	return ok && defs > 0
 }
 
 func (a *concAnalysis) isRecv(n *fnode, v *types.Var) bool {
@@ -609,6 +708,61 @@ func (a *concAnalysis) writes(n *fnode) []concWrite {
 		}
 		return true
 	})
+	return out
+}
+
+// allocs lists the places where n allocates a struct of a named type of the repository: &T{...}, T{...}, new(T)
+func (a *concAnalysis) allocs(n *fnode) []string {
+	info := n.pkg.info
+	phase := "construction"
+	if n.inP && n.inK {
+		phase = "both"
+	} else if n.inP {
+		phase = "parse"
+	}
+	var out []string
+	add := func(t types.Type) {
+		nt, ok := t.(*types.Named)
+		if !ok || nt.Obj().Pkg() == nil {
+			return
+		}
+		if _, isStruct := nt.Underlying().(*types.Struct); !isStruct {
+			return
+		}
+		if pp := nt.Obj().Pkg().Path(); pp != a.l.module && !strings.HasPrefix(pp, a.l.module+"/") {
+			return
+		}
+		out = append(out, fmt.Sprintf("(%s, %s, %s)", strconv.Quote(typeStr(nt)), strconv.Quote(n.name), strconv.Quote(phase)))
+	}
+	ast.Inspect(n.body, func(x ast.Node) bool {
+		switch e := x.(type) {
+		case *ast.FuncLit:
+			return false
+		case *ast.CompositeLit:
+			if t := info.TypeOf(e); t != nil {
+				add(t)
+			}
+		case *ast.CallExpr:
+			if id, ok := unparen(e.Fun).(*ast.Ident); ok && len(e.Args) == 1 {
+				if b, ok := info.Uses[id].(*types.Builtin); ok && b.Name() == "new" {
+					if t := info.TypeOf(e.Args[0]); t != nil {
+						add(t)
+					}
+				}
+			}
+		}
+		return true
+	})
+	return out
+}
+
+func uniq(l []string) []string {
+	var out []string
+	for i, s := range l {
+		if i == 0 || s != l[i-1] {
+			out = append(out, s)
+		}
+	}
 	return out
 }
 
@@ -711,7 +865,7 @@ func concFacts(pkgVars, pkgVarAccesses string) string {
 		n.inP = true
 		return true
 	})
-	var kroots []*fnode
+	kroots := append([]*fnode{}, a.inits...)
 	for _, n := range a.nodes {
 		if !n.inP && n.parent == nil {
 			kroots = append(kroots, n)
@@ -726,6 +880,7 @@ func concFacts(pkgVars, pkgVarAccesses string) string {
 	})
 
 	var parseW, consW []concWrite
+	var allocSites []string
 	var rootNames, pNames, kOnly, both []string
 	for _, n := range a.nodes {
 		if !isTarget[n.pkg] {
@@ -744,7 +899,10 @@ func concFacts(pkgVars, pkgVarAccesses string) string {
 		if a.isParseRoot(n) {
 			rootNames = append(rootNames, n.name)
 		}
+		allocSites = append(allocSites, a.allocs(n)...)
 	}
+	sort.Strings(allocSites)
+	allocSites = uniq(allocSites)
 	sort.Strings(rootNames)
 	sort.Strings(pNames)
 	sort.Strings(kOnly)
@@ -760,11 +918,7 @@ func concFacts(pkgVars, pkgVarAccesses string) string {
 	}
 	typeSet := map[string]bool{}
 	for _, w := range typed {
-		t := w.typ
-		if i := strings.Index(t, " declared in "); i >= 0 {
-			t = t[:i]
-		}
-		typeSet[t] = true
+		typeSet[w.typ] = true
 	}
 	var rootTypes []string
 	for t := range typeSet {
@@ -790,13 +944,15 @@ func concFacts(pkgVars, pkgVarAccesses string) string {
 	def("parse time functions that are also reachable from a construction-only function (variables they declare are not counted as per-invocation)",
 		"parseAndConstructionFuncs", "List String", leanList(quoteAll(both), "    "))
 	wt := "List (String × String × String × String)"
-	def("every non-local write in a parse time function: (function, left-hand side, kind of its root, static type of the root [and where a captured root is declared])",
+	def("every non-local write in a parse time function: (function, left-hand side, kind of its root, static type of the root); a captured root's left-hand side also says where it is declared",
 		"parseTimeWrites", wt, leanList(renderWrites(parseW), "    "))
 	def("the parse time writes whose root is a variable captured from a scope that outlives one parse (shared through the parser graph)",
 		"capturedShared", wt, leanList(renderWrites(shared), "    "))
 	def("same name as in the design document", "capturedWrites", wt, "capturedShared")
 	def("the static types of the roots of the parse time writes that go through a receiver, parameter, local pointer, per-invocation captured pointer or call result",
 		"parseTimeRootTypes", "List String", leanList(quoteAll(rootTypes), "    "))
+	def("where structs of the repository's named types are allocated (&T{...}, T{...}, new(T)): (type, function, when the function can run: parse = only within a parse, construction = never within a parse, both)",
+		"allocSites", "List (String × String × String)", leanList(allocSites, "    "))
 	def("for information: the non-local writes of construction-only functions", "constructionWrites", wt, leanList(renderWrites(consW), "    "))
 	sort.Strings(a.problems)
 	def("things the extractor could not do", "extractionProblems", "List String", "["+strings.Join(quoteAll(a.problems), ", ")+"]")
